@@ -1894,6 +1894,17 @@ func (x *Exec) callStatic(fr *Frame, fn *ssa.Function, args []Value, bind []Valu
 				if tv, ok := r.(TupleV); ok && len(tv.E) == 2 {
 					x.raiseFault(Not(ptrNil(tv.E[1])))
 				}
+			} else if x.driver && x.st != nil {
+				if n := fn.Signature.Results().Len(); n > 0 && fn.Signature.Results().At(n-1).Type().String() == "error" {
+					var e Value = r
+					if tv, ok := r.(TupleV); ok && len(tv.E) == n {
+						e = tv.E[n-1]
+					}
+					switch e.(type) {
+					case IfaceV, *ChoiceV:
+						x.setFlag(buildFaultFlag, Or(x.getFlag(buildFaultFlag), Not(ptrNil(e))))
+					}
+				}
 			}
 			return r
 		}
